@@ -662,7 +662,18 @@ impl expr::Expr
 							return Err(());
 						}
 
-						let left_usize = left_index + 1;
+						let left_usize = match left_index.checked_add(1)
+						{
+							Some(value) => value,
+							None =>
+							{
+								report.error_span(
+									"value is out of supported range",
+									span);
+								
+								return Err(());
+							}
+						};
 
 						Ok(expr::Value::make_integer(
 							x.checked_slice(
